@@ -221,6 +221,8 @@ INTERP_CASES = [
     ("up_default", (2, 3), True, "upsample", (1,), {}),
     ("up_default_nac", (2, 3), False, "upsample", (1,), {}),
     ("up_flag", (2, 3), True, "upsample", (1,), dict(align_corners=False)),
+    ("down_neg_nac", (2, 3), False, "downsample", (-1,), {}),
+    ("down_neg_flag", (2, 3), True, "downsample", (-1,), dict(align_corners=False)),
     ("resize3", (2, 3, 4), False, "resize", ((5, 4, 3),), {}),
 ]
 
